@@ -40,6 +40,10 @@ def fam_model(prmset, **kw):
     return f
 
 
+def fam_tiesplit(tier, seed, n):
+    return scenes.tiesplit_descs(tier, seed, n)
+
+
 def fam_boundary(tier, seed, n):
     return scenes.boundary_descs(seed, n), None
 
@@ -126,8 +130,8 @@ PLANS = {
                             ('excl', dict(invariants=['Inv_C06g'], prmset='PrmPinM', ceilos=('a', 'b'), nt=2, lattice='LatticeE', maxper=1)),
                             ('pinned_merge', dict(invariants=['Inv_C06g'], prmset='PrmPinM', ceilos=('a', 'b'), nt=2, lattice='LatticeE', maxper=1, merge_excl=False), 'Inv_C06g'),
                             ('pinned_order', dict(invariants=['Inv_C06l'], prmset='PrmPinO', ceilos=('a',), nt=4, lattice='LatticeF', maxper=2, orders=('desc',), gmm_time=False), 'Inv_C06l')]},
-        'families': {'quick': [('F3', fam_bands, 500), ('F3b', fam_split, 300), ('Rtiny', fam_rand('tiny'), 250), ('Rmid', fam_rand('mid'), 60)],
-                     'thorough': [('F3', fam_bands, None), ('F3b', fam_split, None), ('Rtiny', fam_rand('tiny'), 4000), ('Rmid', fam_rand('mid'), 800), ('Rbig', fam_rand('big'), 60)]},
+        'families': {'quick': [('F3', fam_bands, 500), ('F3b', fam_split, 300), ('F3d', fam_tiesplit, 144), ('Rtiny', fam_rand('tiny'), 250), ('Rmid', fam_rand('mid'), 60)],
+                     'thorough': [('F3', fam_bands, None), ('F3b', fam_split, None), ('F3d', fam_tiesplit, 2500), ('Rtiny', fam_rand('tiny'), 4000), ('Rmid', fam_rand('mid'), 800), ('Rbig', fam_rand('big'), 60)]},
         'marks': ['N_merge', 'N_2groups', 'N_sepbin2', 'N_noremerge', 'N_split', 'N_split3'],
         'seed_shift': 19,
     },
